@@ -441,6 +441,10 @@ func init() {
 			panic(pathEnd{"exit", "os.Exit"})
 		},
 		"fmt.Errorf": func(e *Engine, f *ssa.Function, a []Val) Val {
+			// an opaque error value whose text is the formatted message (wrapped errors by their text)
+			if txt, ok := e.sprintfVal(a[0], a[1]).(Str); ok {
+				return If{t: sentinelType, v: txt}
+			}
 			return If{t: sentinelType, v: Str("fmt.Errorf:" + strArg(a[0]))}
 		},
 		"fmt.Sprintf": func(e *Engine, f *ssa.Function, a []Val) Val {
